@@ -110,7 +110,7 @@ package resolver
 //@ func hasNullEntry
 //@   prop C19
 //@   safety
-//@   modifies nothing
+//@   pure heap
 //@   loop 1 invariant forall k int :: 0 <= k && k < $i ==> string(entries[k]) != "null"
 //@   ensures [clean-means-no-null-entry] !result ==> arg(call json.Unmarshal #1, 0) == []byte(value)
 //@        && ( !isNilIface(ret(call json.Unmarshal #1)) || (forall k int :: 0 <= k && k < len(entries) ==> string(entries[k]) != "null") )
@@ -126,6 +126,9 @@ package resolver
 //@   call json.Unmarshal #2 requires [go-did-sees-the-document-only-after-the-null-entry-screen]
 //@        isNilIface(ret(call json.Unmarshal #1)) && arg(call json.Unmarshal #1, 0) == data && arg(call json.Unmarshal #1, 1) == any(&members)
 //@        && arg(0) == data && arg(1) == any(document) && $done1
+// every member visited so far whose name matches case-insensitively has been screened and is clean
+//@   loop 1 invariant forall n string :: (visited(1, n) && n in members && strings.EqualFold(n, "verificationMethod")) ==> !hasNullEntry(members[n])
+//@   ensures [no-spelling-of-the-member-has-a-null-entry] did(call json.Unmarshal #2) ==> (forall n string :: (n in members && strings.EqualFold(n, "verificationMethod")) ==> !hasNullEntry(members[n]))
 // members are selected for the screen by case-insensitive comparison and in no other way
 //@   ensures [members-are-selected-case-insensitively] did(call hasNullEntry #1) ==> did(call strings.EqualFold #1) && ret(call strings.EqualFold #1)
 //@   ensures [success-only-through-go-did] isNilIface(result) ==> did(call json.Unmarshal #2) && isNilIface(ret(call json.Unmarshal #2))
